@@ -209,9 +209,20 @@ def run_connection(scn, capture=None):
         res["delivered0"] = d.transport.delivered
         wrap("send_input")
         wrap("send_inputs_interact")
+        # observer: what the device had printed that was still unread at the moment of every write (black box: the
+        # transport's write is wrapped on the instance; the channel code is untouched)
+        wlog = []
+        t_write = d.transport.write
+
+        def observed_write(channel_input):
+            wlog.append((bytes(channel_input), d.transport.residue(), dev.mode is None))
+            return t_write(channel_input)
+
+        d.transport.write = observed_write
         for op in scn["ops"]:
             o = {"exc": None}
             del sent[:]
+            del wlog[:]
             l0 = len(dev.log)
             try:
                 if op["op"] == "cmd":
@@ -237,6 +248,7 @@ def run_connection(scn, capture=None):
                 o["exc"] = type(e).__name__
             o["chan"] = [(n, bytes(a), bytes(b)) for n, (a, b) in sent]
             o["log"] = list(dev.log[l0:])
+            o["writes"] = list(wlog)
             o["residue"] = d.transport.residue()
             o["ready"] = dev.mode is None and not dev.line
             res["ops"].append(o)
